@@ -218,7 +218,10 @@ def handleCli (args : List String) : String :=
       | "time" => DebugMode.time | "all" => .all | "lexer" => .lexer | "parser" => .parser
       | "interpreter" => .interpreter | _ => .none
     let out := cliRun cfg 1000000 ⟨m, d, check == "1"⟩ (unhex src) { stdin := unhex stdin } []
-    s!"{if out.exitZero then 0 else 1} {hexStr out.stdout} {if out.stderrNonEmpty then 1 else 0}"
+    -- a run the model cannot finish within its budget (unbounded recursion, ...) is outside the properties
+    let fuel := match (run cfg 1000000 (unhex src) { stdin := unhex stdin } []).status with
+      | .fuel => true | _ => false
+    s!"{if out.exitZero then 0 else 1} {hexStr out.stdout} {if out.stderrNonEmpty then 1 else 0} fuel={if fuel then 1 else 0}"
   | _ => "bad-request"
 
 def handle (line : String) : String :=
